@@ -3,6 +3,7 @@ package seq
 import (
 	"fmt"
 	"math"
+	"sort"
 	"strings"
 	"testing"
 
@@ -184,13 +185,13 @@ type snapCase struct {
 }
 
 var kindMutations = map[string][]string{
-	"Array":   {"SetValue", "SetValues", "SortDesc", "Reverse", "Shuffle", "SourceSetValue", "SourceReverse"},
-	"List":    {"SetValue", "SetValues", "SortDesc", "Reverse", "Shuffle", "InsertFront", "Append", "RemoveFirst", "RemoveLast", "RemoveRange", "RemoveAll", "SourceSetValue", "SourceReverse"},
-	"Set":     {"AddSmall", "AddLarge", "RemoveFirst", "RemoveLast", "RemoveAll"},
-	"Stack":   {"Push", "Pop", "RemoveAll"},
-	"Queue":   {"Add", "RemoveHead", "RemoveAll"},
-	"Catalog": {"SetNew", "SetExisting", "RemoveFirst", "RemoveLast", "RemoveAll", "SortDesc", "Reverse", "Shuffle"},
-	"Map":     {"SetNew", "SetExisting", "RemoveFirst", "RemoveAll"},
+	"Array":   {"SetValue", "SetValues", "SortDesc", "Reverse", "Shuffle", "SourceSetValue", "SourceReverse", "ScribbleArrayView"},
+	"List":    {"SetValue", "SetValues", "SortDesc", "Reverse", "Shuffle", "InsertFront", "Append", "RemoveFirst", "RemoveLast", "RemoveRange", "RemoveAll", "SourceSetValue", "SourceReverse", "ScribbleArrayView"},
+	"Set":     {"AddSmall", "AddLarge", "RemoveFirst", "RemoveLast", "RemoveAll", "ScribbleArrayView"},
+	"Stack":   {"Push", "Pop", "RemoveAll", "ScribbleArrayView"},
+	"Queue":   {"Add", "RemoveHead", "RemoveAll", "ScribbleArrayView"},
+	"Catalog": {"SetNew", "SetExisting", "RemoveFirst", "RemoveLast", "RemoveAll", "SortDesc", "Reverse", "Shuffle", "ScribbleArrayView"},
+	"Map":     {"SetNew", "SetExisting", "RemoveFirst", "RemoveAll", "ScribbleArrayView"},
 }
 
 var snapKinds = []string{"Array", "List", "Set", "Stack", "Queue", "Catalog", "Map"}
@@ -316,6 +317,14 @@ func execSnapCase(c snapCase, _ core.Source) (res core.Result) {
 			size := common.GetSize()
 			fresh++
 			switch name {
+			case "ScribbleArrayView":
+				// the Go array a collection hands out is the caller's: it is overwritten (iterators taken before
+				// and after it was asked for must not notice)
+				view := common.AsArray()
+				for i := range view {
+					view[i] = -7 - i
+				}
+				sort.Ints(view)
 			case "SetValue":
 				if size > 0 {
 					common.SetValue(1, fresh)
@@ -367,6 +376,11 @@ func execSnapCase(c snapCase, _ core.Source) (res core.Result) {
 		mutate = func(name string) {
 			fresh++
 			switch name {
+			case "ScribbleArrayView":
+				view := set.AsArray()
+				for i := range view {
+					view[i] = -7 - i
+				}
 			case "AddSmall":
 				set.AddValue(-fresh)
 			case "AddLarge":
@@ -392,6 +406,11 @@ func execSnapCase(c snapCase, _ core.Source) (res core.Result) {
 		mutate = func(name string) {
 			fresh++
 			switch name {
+			case "ScribbleArrayView":
+				view := st.AsArray()
+				for i := range view {
+					view[i] = -7 - i
+				}
 			case "Push":
 				st.AddValue(fresh)
 			case "Pop":
@@ -411,6 +430,12 @@ func execSnapCase(c snapCase, _ core.Source) (res core.Result) {
 		mutate = func(name string) {
 			fresh++
 			switch name {
+			case "ScribbleArrayView":
+				view := q.AsArray()
+				for i := range view {
+					view[i] = -7 - i
+				}
+				sort.Ints(view)
 			case "Add":
 				if q.GetSize() < int(q.GetCapacity()) {
 					q.AddValue(fresh)
@@ -458,6 +483,11 @@ func execSnapCase(c snapCase, _ core.Source) (res core.Result) {
 			fresh++
 			keys := assoc.GetKeys().AsArray()
 			switch name {
+			case "ScribbleArrayView":
+				view := assoc.AsArray()
+				for i := range view {
+					view[i] = view[len(view)-1]
+				}
 			case "SetNew":
 				assoc.SetValue(float64(fresh), fresh)
 			case "SetExisting":
